@@ -88,7 +88,7 @@ func (c15) Build(tier string, seed uint64) []any {
 			}
 		}
 	}
-	nRand := 60
+	nRand := 400
 	if th {
 		nRand = 8000
 	}
